@@ -1,18 +1,25 @@
 #!/bin/sh
-# usage: seed_verify.sh Cnn   -- confirm a seeded change in its scratch worktree /tmp/seed/Cnn:
-#   suite passes with the change, demo fails with it and passes without it; then store it under /verif/seeded/Cnn
-id=$1; wt=/tmp/seed/$id; out=/verif/seeded/$id
-[ -d "$wt" ] || { echo "no worktree $wt"; exit 2; }
+# usage: seed_verify.sh Cnn [worktree]  -- confirm a seeded change in a scratch worktree:
+#   suite passes with the change, demo fails with it and passes without it; then store it under /verif/seeded/Cnn.
+#   (no git stash: the stash is shared by all worktrees of a repository)
+id=$1; wt=${2:-/tmp/seed/$id}; out=/verif/seeded/$id
 mkdir -p "$out"
+if [ ! -d "$wt" ]; then   # re-verification from the stored patch
+  git -C /repo worktree add --detach "$wt" HEAD >/dev/null 2>&1 || exit 2
+  (cd "$wt" && git apply "$out/patch.diff" && cp "$out/demo.py" demo.py) || { echo "$id: stored patch does not apply"; exit 3; }
+  made=1
+fi
 cd "$wt" || exit 2
-git diff -- xeofs > "$out/patch.diff"
-[ -s "$out/patch.diff" ] || { echo "$id: empty patch"; exit 3; }
+git diff -- xeofs > "$out/patch.diff.new"
+[ -s "$out/patch.diff.new" ] || { echo "$id: empty patch"; exit 3; }
+mv "$out/patch.diff.new" "$out/patch.diff"
 cp demo.py "$out/demo.py" 2>/dev/null; cp NOTE.md "$out/NOTE.md" 2>/dev/null
-PYTHONPATH=$wt timeout 300 /venv/bin/python demo.py > "$out/demo_changed.log" 2>&1; rc_changed=$?
-git stash -q
-PYTHONPATH=$wt timeout 300 /venv/bin/python demo.py > "$out/demo_unchanged.log" 2>&1; rc_unchanged=$?
-git stash pop -q
+PYTHONPATH=$wt timeout 600 /venv/bin/python demo.py > "$out/demo_changed.log" 2>&1; rc_changed=$?
 PYTHONPATH=$wt timeout 2400 /venv/bin/python -m pytest -q -p no:cacheprovider --timeout=900 > "$out/suite.log" 2>&1; rc_suite=$?
+git apply -R "$out/patch.diff"
+PYTHONPATH=$wt timeout 600 /venv/bin/python demo.py > "$out/demo_unchanged.log" 2>&1; rc_unchanged=$?
+git apply "$out/patch.diff"
 tail -1 "$out/suite.log"
 echo "$id demo_changed=$rc_changed demo_unchanged=$rc_unchanged suite=$rc_suite"
 echo "{\"demo_changed_rc\": $rc_changed, \"demo_unchanged_rc\": $rc_unchanged, \"suite_rc\": $rc_suite, \"suite_summary\": \"$(tail -1 $out/suite.log | tr -d '=\"')\"}" > "$out/confirm.json"
+[ -n "$made" ] && { cd /; git -C /repo worktree remove --force "$wt"; }
